@@ -54,7 +54,10 @@ cleanup:
 	return res;
 }
 
-int KSI_TlvElement_parse(unsigned char *dat, size_t dat_len, KSI_TlvElement **out) {
+/**
+ * Parses the first element found in the input; with \c exact set the element has to span the whole input.
+ */
+static int parseElement(unsigned char *dat, size_t dat_len, int exact, KSI_TlvElement **out) {
 	int res = KSI_UNKNOWN_ERROR;
 	KSI_TlvElement *tmp = NULL;
 
@@ -68,6 +71,11 @@ int KSI_TlvElement_parse(unsigned char *dat, size_t dat_len, KSI_TlvElement **ou
 
 	res = KSI_FTLV_memRead(dat, dat_len, &tmp->ftlv);
 	if (res != KSI_OK) goto cleanup;
+
+	if (exact && tmp->ftlv.hdr_len + tmp->ftlv.dat_len != dat_len) {
+		res = KSI_INVALID_FORMAT;
+		goto cleanup;
+	}
 
 	tmp->ptr = dat;
 	tmp->ptr_own = 0;
@@ -83,6 +91,11 @@ cleanup:
 
 	return res;
 }
+
+int KSI_TlvElement_parse(unsigned char *dat, size_t dat_len, KSI_TlvElement **out) {
+	return parseElement(dat, dat_len, 1, out);
+}
+
 static int remap(KSI_TlvElement *el, unsigned char *buf, size_t buf_len) {
 	int res = KSI_UNKNOWN_ERROR;
 	unsigned char *ptr = buf;
@@ -337,7 +350,7 @@ static int convertToNested(KSI_TlvElement *el) {
 		while (len > 0) {
 			size_t consumed = 0;
 
-			res = KSI_TlvElement_parse(ptr, len, &tmp);
+			res = parseElement(ptr, len, 0, &tmp);
 			if (res != KSI_OK) goto cleanup;
 
 			consumed = tmp->ftlv.dat_len + tmp->ftlv.hdr_len;
